@@ -21,6 +21,13 @@ class VariableBoundBoundsMaxPropagator(VariableBoundMaxPropagator):
         # Ensure that we are notified whenver the other side changes
         other.add_propagator(self)
         
+    def propagate(self):
+        if len(self.other.domain.range_l) == 0:
+            # The other variable's domain is already empty (contradicting
+            # constraints): there is no bound to derive from it
+            return False
+        return super().propagate()
+        
     def max(self):
 #        print("max: " + str(self.other.domain.range_l[-1][1]+self.offset))
         return (self.other.domain.range_l[-1][1]+self.offset)
